@@ -113,6 +113,11 @@ def check_expm(ctx, A, v, dt, m, kd_h, hermitian, style=None):
         exact = exact_expm_apply(A, dt, v0)
         # perturbations of the projected matrix (rounding, loss of orthogonality ~1e-11 near exhaustion) enter the exponential multiplied by |dt| ||A||
         tol_x = 1e-9 * max(1.0, abs(dt) * nA)
+        if not hermitian:
+            # modified-Gram-Schmidt Arnoldi loses orthogonality like eps * cond(Krylov basis) (see C14); that defect of the projected matrix enters the same way
+            _, Qref = kr.krylov_residuals(A, v0, min(m, n) + 1, basis=True)
+            kq = min(m, Qref.shape[1] + 1)
+            tol_x = max(tol_x, 1e-14 * kr.basis_condition(A, v0, Qref, kq) * max(1.0, abs(dt) * nA))
         ctx.close(f'{tag}.exact-when-exhausted', np.linalg.norm(r - exact) / max(np.linalg.norm(exact), nv), tol_x,
                   f'm={m} >= Krylov dimension {kd_h} but result != expm(dt A) v', detail)
 
